@@ -121,8 +121,10 @@ func init() {
 			p.TxMean = 0.5
 			return p
 		},
-		extra:      func(rng *rand.Rand, g *world.Gen) func(uint32, *world.BlockSpec) { return stakerVariants(rng, g) },
-		nontrivial: func(w *world.World, l *model.Ledger) []string { return causeKeys(l, model.CMining, model.CStaking, model.CBurn) },
+		extra: func(rng *rand.Rand, g *world.Gen) func(uint32, *world.BlockSpec) { return stakerVariants(rng, g) },
+		nontrivial: func(w *world.World, l *model.Ledger) []string {
+			return causeKeys(l, model.CMining, model.CStaking, model.CBurn)
+		},
 	})
 	// ------------------------------------------------------------ C12
 	Register(&refineCheck{id: "C12",
@@ -211,7 +213,9 @@ func init() {
 			p.TxMean = 1.5
 			return p
 		},
-		extra:      func(rng *rand.Rand, g *world.Gen) func(uint32, *world.BlockSpec) { return chain2(quietMiddle(rng, g), burnAddressTraffic(rng, g)) },
+		extra: func(rng *rand.Rand, g *world.Gen) func(uint32, *world.BlockSpec) {
+			return chain2(quietMiddle(rng, g), burnAddressTraffic(rng, g))
+		},
 		nontrivial: func(w *world.World, l *model.Ledger) []string { return causeKeys(l, model.CDev, model.COneTime) },
 	})
 	// ------------------------------------------------------------ C16
